@@ -46,6 +46,8 @@ func c12Specs() []c12Spec {
 		{name: "boolonly", pat: `(a|b)+c(\d*)`},
 		{name: "stacklimit", pat: `(?:ab?)*c`, opts: []regexp2.CompileOption{regexp2.OptionMaxBacktrackingStackSize(65)}},
 		{name: "timeout", pat: `(a+)+!$`, timeout: 8 * time.Millisecond},
+		{name: "stacklimit-groups", pat: `^(?:(a)|b)*c`, opts: []regexp2.CompileOption{regexp2.OptionMaxBacktrackingStackSize(129)}},
+		{name: "timeout-groups", pat: `^(?:(a+)+|b)*c`, timeout: 8 * time.Millisecond},
 		{name: "rtl", pat: `\d+[a-z]`, opts: []regexp2.CompileOption{regexp2.RightToLeft}, rtl: true},
 		{name: "named-smallcache", pat: `(?<word>[a-z]+) (?<n>\d+)`, opts: []regexp2.CompileOption{
 			regexp2.OptionMaxCachedReplacerDataEntries(4), regexp2.OptionMaxCachedReplacerDataBytes(8),
@@ -64,7 +66,7 @@ func (s c12Spec) compile() *regexp2.Regexp {
 
 // fragments the patterns react to; the filler '.' matches nothing
 var c12Frags = []string{"abc12", "(ab)", "((x)y)", "bac", "ab ab c", "hello 42", "7x", "123z", "aab", "c", "ababababababababababababababc",
-	"abababababababababababababababababababababababc", "x 1", "é", "éé 9q", "()", "aaaa!", "ab", "q 77 r 8"}
+	"abababababababababababababababababababababababc", "x 1", "é", "éé 9q", "()", "aaaa!", "ab", "q 77 r 8", "bbc", "bc", "bbbbc", "aaaaaaaaaaaaaaaaaaaaaaaaaaaaaaaaaaaaaaaaaaaaaaaaaaaaaaaaaaaaaaaaaaaaaaaaaaaaaaaaaaaaaaaac", "aaaaaaaaaaaaaaaaaaaaaaaaaaaaaaaab"}
 
 const c12Catastrophic = "aaaaaaaaaaaaaaaaaaaaaaaaaaaaaaaaaaaaaa!x"
 
